@@ -17,6 +17,8 @@ Fin(r, st) ==
     [] st.k \in {"AddPeer", "AddLightPeer", "PromoteLearner"} -> Voterish(r, st.store) /\ IdAt(r, st.store) = st.peer
     [] st.k \in {"AddLearner", "AddLightLearner", "DemoteFollower"} -> RoleAt(r, st.store) = "Learner" /\ IdAt(r, st.store) = st.peer
     [] st.k = "RemovePeer" -> st.store \notin DOMAIN r.peers
+    [] st.k = "Split" -> r.keys # st.keys                 \* finished once the region's range changed
+    [] st.k = "Merge" -> FALSE                            \* the source disappears / the target's range grows: never inside these histories
     [] st.k = "Enter" -> /\ \A p \in Pairs(st.promotes) : IdAt(r, p[1]) = p[2] /\ RoleAt(r, p[1]) = "IncomingVoter"
                          /\ \A p \in Pairs(st.demotes) : IdAt(r, p[1]) = p[2] /\ RoleAt(r, p[1]) = "DemotingVoter"
     [] st.k = "Leave" -> /\ \A p \in Pairs(st.promotes) : IdAt(r, p[1]) = p[2] /\ RoleAt(r, p[1]) = "Voter"
@@ -54,6 +56,8 @@ CmdOK(r, st, m) ==
     [] st.k = "Enter" -> m.k = "V2" /\ {<<m.changes[i][1], m.changes[i][2], m.changes[i][3]>> : i \in 1..Len(m.changes)}
                                         = {<<"AddNode", p[1], p[2]>> : p \in Pairs(st.promotes)} \cup {<<"AddLearnerNode", p[1], p[2]>> : p \in Pairs(st.demotes)}
     [] st.k = "Leave" -> m.k = "V2" /\ Len(m.changes) = 0
+    [] st.k = "Split" -> m.k = "Split"
+    [] st.k = "Merge" -> m.k = "Merge" /\ ~st.passive      \* the passive half of a merge sends nothing
     [] OTHER -> FALSE
 
 RECURSIVE Advance(_, _, _)
@@ -63,7 +67,7 @@ VARIABLES tr, pst, prun, frn, cur
 mvars == <<l, bad, tr, pst, prun, frn, cur>>
 MInit == l = 1 /\ bad = {} /\ tr = 0 /\ pst = <<>> /\ prun = <<>> /\ frn = <<>> /\ cur = <<>> /\ TLCSet(1, 0) /\ TLCSet(2, {})
 
-Reg(x) == RegionOf(x.peers, x.leader)
+Reg(x) == LET r == RegionOf(x.peers, x.leader) IN [peers |-> r.peers, leader |-> r.leader, keys |-> x.keys]
 Old(o) == IF o <= Len(pst) THEN pst[o] ELSE "Created"
 Clauses(e) ==
   LET NR == Len(e.view)
@@ -84,6 +88,9 @@ Clauses(e) ==
   \cup (IF \E o \in 1..NO : Old(o) = "Created" /\ st(o) = "Started" /\
               LET r == e.ops[o].region IN ~(e.ops[o].ec = e.view[r].conf /\ e.ops[o].ev = e.view[r].ver)
         THEN {"AdmittedOnlyAtEqualEpoch"} ELSE {})
+  \cup (IF \E o \in 1..NO : e.ops[o].pair # 0 /\ Old(o) = "Created" /\ st(o) # "Created" /\
+              LET q == e.ops[o].pair IN ~((st(o) = "Started" /\ st(q) = "Started") \/ (st(o) \in EndStatus /\ st(q) \in EndStatus))
+        THEN {"MergePairAdmittedTogetherOrNotAtAll"} ELSE {})
   \cup (IF \E r \in 1..NR : prun[r] # 0 /\ e.running[r] # prun[r] /\ st(prun[r]) \notin EndStatus THEN {"LeavesOnlyEnded"} ELSE {})
   \cup (IF \E r \in 1..NR : prun[r] # 0 /\ e.running[r] = 0 /\
               LET o == prun[r] rec == e.record[r] IN
